@@ -935,6 +935,33 @@ impl StrengthReducedU64 {
     }
 }
 
+/// Verification accessors (cfg `datafusion_verif` only): drive the private strength-reduced
+/// remainder exactly as the hash partitioner does.
+#[cfg(datafusion_verif)]
+pub mod verif_export {
+    pub use super::distributor_channels::*;
+
+    /// `value % divisor` as computed by `StrengthReducedU64` (`new` + `quotient`).
+    pub fn verif_strength_reduced_remainder(divisor: u64, value: u64) -> u64 {
+        match super::StrengthReducedU64::new(divisor) {
+            super::StrengthReducedU64::PowerOfTwo { mask } => value & mask,
+            super::StrengthReducedU64::Reciprocal {
+                divisor,
+                reciprocal,
+            } => value.wrapping_sub(
+                super::StrengthReducedU64::quotient(value, reciprocal).wrapping_mul(divisor),
+            ),
+        }
+    }
+
+    /// Partition index of every hash, through the production `partition_indices` loop.
+    pub fn verif_partition_indices(divisor: usize, hashes: &[u64]) -> Vec<Vec<u32>> {
+        let mut indices = vec![Vec::new(); divisor];
+        super::StrengthReducedU64::new(divisor as u64).partition_indices(hashes, &mut indices);
+        indices
+    }
+}
+
 impl BatchPartitioner {
     /// Create a new [`BatchPartitioner`] for hash-based repartitioning.
     ///
